@@ -141,40 +141,130 @@ def real_build(ctx: Ctx, name: str, files: dict[str, str], modules: list[str]) -
     return d, ""
 
 
-def run_py(d: str, script: str, args: list[str], timeout: int = 120) -> tuple[int, str]:
-    with open(os.path.join(d, "_drv.py"), "w") as f:
+class Build:
+    """A `python -m mypyc` of the checked tree running in the background (started early, collected when needed)."""
+
+    def __init__(self, ctx: Ctx, name: str, files: dict[str, str], modules: list[str]):
+        self.dir = os.path.join(ctx.tmp, "real", name)
+        os.makedirs(self.dir, exist_ok=True)
+        for rel, text in files.items():
+            p = os.path.join(self.dir, rel)
+            os.makedirs(os.path.dirname(p), exist_ok=True)
+            with open(p, "w") as f:
+                f.write(text)
+        self.log = open(os.path.join(self.dir, "_build.log"), "w")
+        self.proc = subprocess.Popen([PY, "-m", "mypyc"] + [m.replace(".", "/") + ".py" for m in modules], cwd=self.dir,
+                                     env=repo_env(), stdout=self.log, stderr=subprocess.STDOUT)
+        self.result: tuple[str | None, str] | None = None
+
+    def wait(self, timeout: int = 600) -> tuple[str | None, str]:
+        if self.result is None:
+            try:
+                rc = self.proc.wait(timeout=timeout)
+            except subprocess.TimeoutExpired:
+                self.proc.kill()
+                rc = -9
+            self.log.close()
+            text = open(os.path.join(self.dir, "_build.log")).read()[-1500:]
+            self.result = (self.dir, "") if rc == 0 else (None, text)
+        return self.result
+
+
+def run_py(d: str, script: str, args: list[str], timeout: int = 120, name: str = "_drv.py") -> tuple[int, str]:
+    """Run a driver next to a compiled module, with CPython's debug allocator (freed memory is poisoned, so a use
+    after free is a deterministic crash instead of a silent read of stale memory)."""
+    with open(os.path.join(d, name), "w") as f:
         f.write(script)
     try:
-        p = subprocess.run([PY, "_drv.py"] + args, cwd=d, env=repo_env(), capture_output=True, text=True, timeout=timeout)
+        p = subprocess.run([PY, name] + args, cwd=d, env=repo_env({"PYTHONMALLOC": "debug"}), capture_output=True,
+                           text=True, timeout=timeout)
     except subprocess.TimeoutExpired:
         return 0, "TIMEOUT"            # inconclusive, never counted as a crash
     return p.returncode, p.stdout + p.stderr[-800:]
 
 
-KNOWN_RECIPES = {
-    "generator-close-null-GeneratorExit": (
-        "from typing import Iterator\ndef gen(n: int) -> Iterator[int]:\n    for i in range(n):\n        yield i\n",
-        "import native, builtins\ng = native.gen(3)\nnext(g)\ndel builtins.GeneratorExit\ndel builtins.StopIteration\n"
-        "g.close()\nprint('survived')\n"),
-    "temp-register-lost-across-yield": (
-        "import asyncio\nfrom typing import Any\nasync def one(x: Any) -> Any:\n    await asyncio.sleep(0)\n    return x\n"
-        "async def both(a: Any, b: Any) -> Any:\n    return await one(a) + await one(b)\n",
-        "import asyncio, native\nprint(asyncio.run(native.both(1, 2)))\n"),
+KNOWN_MODULE = '''
+import asyncio
+from typing import Any, List
+
+# F-C06b: the result of the first await lives in an unspilled Register across the second await
+async def one(x: Any) -> Any:
+    await asyncio.sleep(0)
+    return x
+
+async def both(a: Any, b: Any) -> Any:
+    return await one(a) + await one(b)
+
+# F-C06c: the target object of a nested augmented assignment is borrowed across the right operand
+class Inner:
+    def __init__(self, n: int) -> None:
+        self.n = n
+
+class Outer:
+    def __init__(self, inner: Inner) -> None:
+        self.inner = inner
+
+def swap(o: Outer, new: int) -> int:
+    o.inner = Inner(new)
+    return 1
+
+def bump(o: Outer, new: int) -> int:
+    o.inner.n += swap(o, new)
+    return o.inner.n
+
+# F-C06d: two initialising stores to one slot in Derived.__mypyc_defaults_setup
+def make() -> object:
+    return [1]
+
+class Base:
+    tag: object = make()
+
+class Derived(Base):
+    tag = make()
+
+# F-C06e: CPyList_SetItem is declared as stealing but keeps the reference when it fails
+def set_item(lst: List[object], i: int, v: object) -> bool:
+    try:
+        lst[i] = v
+    except IndexError:
+        return False
+    return True
+'''
+
+# class -> (driver, what a reproduction looks like)
+KNOWN_DRIVERS = {
+    "temp-register-lost-across-yield": "import asyncio, native\nprint(asyncio.run(native.both(1, 2)))\n",
+    "heap-borrow-used-after-rebinding-op": (
+        "import native\nBIG = 1 << 80\nfor i in range(1000):\n    o = native.Outer(native.Inner(BIG + i))\n"
+        "    native.bump(o, 5)\nprint('survived')\n"),
+    "init-store-overwrites-initialised-slot": (
+        "import native, gc, sys\nfor i in range(200): native.Derived()\ngc.collect(); b = sys.getallocatedblocks()\n"
+        "for i in range(2000): native.Derived()\ngc.collect(); d = sys.getallocatedblocks() - b\nprint('blocks', d)\n"
+        "sys.exit(3 if d >= 2000 else 0)\n"),
+    "stealing-primitive-leaks-on-error": (
+        "import native, sys\nclass T: pass\nv = T(); l = [1]\nb = sys.getrefcount(v)\n"
+        "for i in range(1000): native.set_item(l, 5, v)\nd = sys.getrefcount(v) - b\nprint('refs', d)\n"
+        "sys.exit(3 if d >= 1000 else 0)\n"),
 }
 
 
-def run_known_recipe(ctx: Ctx, cls: str) -> dict:
-    src, drv = KNOWN_RECIPES[cls]
-    d, log = real_build(ctx, "known-" + cls, {"native.py": src}, ["native"])
+def run_known_recipe(build: "Build", cls: str) -> dict:
+    d, log = build.wait()
+    drv = KNOWN_DRIVERS[cls]
     if d is None:       # e.g. the C compiler rejects what a broken tree emits: no dynamic witness, not a tool failure
-        return {"program": src, "driver": drv, "exit_code": None, "signal": None, "output": "", "build_failed": log[-400:]}
-    rc, out = run_py(d, drv, [])
-    return {"program": src, "driver": drv, "exit_code": rc, "signal": -rc if rc < 0 else None, "output": out[-300:]}
+        return {"program": KNOWN_MODULE, "driver": drv, "exit_code": None, "signal": None, "output": "", "build_failed": log[-400:],
+                "result": "witness-build-failed"}
+    rc, out = run_py(d, drv, [], name="_drv_" + cls.replace("-", "_") + ".py")
+    res = "SIGSEGV" if rc in (-11, 139) else ("leak" if rc == 3 else ("not-reproduced" if rc == 0 else f"exit {rc}"))
+    return {"program": KNOWN_MODULE, "driver": drv, "exit_code": rc, "signal": -rc if rc < 0 else None, "output": out[-300:],
+            "result": res}
 
 
-def dynamic_generated(ctx: Ctx, tag: str, source: str, fnames: list[str], reps: int) -> dict:
+def dynamic_generated(ctx: Ctx, tag: str, source: str, fnames: list[str], reps: int, build: "Build | None" = None) -> dict:
     """Compile a generated module for real, call the functions on tracked objects (compiled and interpreted)."""
-    d, log = real_build(ctx, tag, {"native.py": source, "interp.py": source}, ["native"])
+    if build is None:
+        build = Build(ctx, tag, {"native.py": source, "interp.py": source}, ["native"])
+    d, log = build.wait()
     if d is None:
         return {"built": False, "log": log}
     res: dict[str, Any] = {"built": True, "failures": [], "calls": 0}
@@ -195,8 +285,25 @@ def dynamic_generated(ctx: Ctx, tag: str, source: str, fnames: list[str], reps: 
     for r in rows:
         k = irows.get((r["fn"], r["n"], r["flag"], r["o"]))
         und = ("UnboundLocalError", "AttributeError")
-        if k is not None and (k in und or r["kind"] in und) and k != r["kind"]:
+        # CPython raises for an unassigned local / attribute but the compiled code carried on (or failed differently).
+        # (The converse — compiled raises AttributeError after `del` of an attribute with a class-level default, CPython
+        # falls back to the class attribute — is a documented mypyc difference and memory safe.)
+        if k in und and k != r["kind"]:
             res["failures"].append(dict(r, **{"class": "undefined-read-differs", "interpreted": k}))
+    return res
+
+
+def dynamic_pinned(ctx: Ctx, tag: str, source: str, driver: str) -> dict:
+    """A pinned program with its own driver (exit status 0 = fine)."""
+    d, log = Build(ctx, tag, {"native.py": source}, ["native"]).wait()
+    if d is None:
+        return {"built": False, "log": log}
+    rc, out = run_py(d, driver, [], timeout=300)
+    res: dict[str, Any] = {"built": True, "failures": [], "output": out[-300:], "driver": driver}
+    if rc < 0 or rc in (134, 139):
+        res["failures"].append({"class": "crash", "exit_code": rc, "signal": -rc if rc < 0 else rc - 128})
+    elif rc != 0 and "PROBLEM" in out:
+        res["failures"].append({"class": "refcount-imbalance-or-wrong-result", "exit_code": rc, "message": out.strip()[-200:]})
     return res
 
 
@@ -265,11 +372,35 @@ def classify(f: dict) -> dict:
             and not b.get("var_named") and f.get("last_writer_block") == 0 and b.get("micro_kind") in ("use", "steal", "incref", "decref"):
         obs.update({"class": "temp-register-lost-across-yield", "function": "__mypyc_generator_helper__",
                     "origin": "entry-block re-initialisation to the error value"})
+    elif b.get("var_kind") == "init-slot":
+        # two initialising stores (no release of the old value) to one attribute slot on one path
+        obs = {"class": "init-store-overwrites-initialised-slot", "function": f["short"], "value": b.get("value")}
+    elif b.get("value") == "(0, False)" and b.get("micro_kind") in ("use", "steal", "incref") and vd.get("borrowed"):
+        # borrow safety: a value borrowed from the heap is used after an op that may have rebound its owner
+        obs = {"class": "heap-borrow-used-after-rebinding-op", "borrow_def": vd.get("op"), "use_op": b.get("ir_op"),
+               "use_function": b.get("ir_function")}
+    elif b.get("value") == "N" and vd.get("op") == "GetAttr" and vd.get("error_kind") == 0 \
+            and not (vd.get("attr_always_initialized") and not vd.get("attr_deletable")):
+        # side condition: a GetAttr without an error branch whose slot the ClassIR does not guarantee to be filled
+        obs = {"class": "getattr-nonfailing-but-attribute-may-be-undefined", "use_op": b.get("ir_op"),
+               "always_initialized": vd.get("attr_always_initialized"), "deletable": vd.get("attr_deletable"),
+               "has_default": vd.get("attr_has_default")}
     return obs
 
 
 # ------------------------------------------------------------------------------------- main
-def export_all(ctx: Ctx) -> list[dict]:
+def pinned_programs() -> list[tuple[str, str, str | None]]:
+    """(name, module source, driver source or None) of corpus/c06"""
+    cdir = os.path.join(os.path.dirname(os.path.dirname(os.path.dirname(os.path.abspath(__file__)))), "corpus", "c06")
+    out = []
+    for fn in sorted(os.listdir(cdir)) if os.path.isdir(cdir) else []:
+        if fn.endswith(".py") and not fn.endswith(".driver.py"):
+            drv = os.path.join(cdir, fn[:-3] + ".driver.py")
+            out.append((fn, open(os.path.join(cdir, fn)).read(), open(drv).read() if os.path.exists(drv) else None))
+    return out
+
+
+def export_all(ctx: Ctx, gen_progs: list[tuple[str, list[str], list[str]]]) -> list[dict]:
     from translate import ir_export as X
     rng = ctx.rng
     cases = X.corpus_cases(REPO)
@@ -294,18 +425,14 @@ def export_all(ctx: Ctx) -> list[dict]:
     for i, c in enumerate(cases):
         jobs.append((i, c.kind, c.key, c, root))
     # pinned programs (minimised past findings + must-accept shapes): always checked, real typeshed
-    cdir = os.path.join(os.path.dirname(os.path.dirname(os.path.dirname(os.path.abspath(__file__)))), "corpus", "c06")
-    pinned = sorted(f for f in os.listdir(cdir) if f.endswith(".py")) if os.path.isdir(cdir) else []
-    for j, fn in enumerate(pinned):
-        jobs.append((100000 + j, "pinned", "pinned:" + fn, open(os.path.join(cdir, fn)).read(), root))
-    nprog = ctx.pick(20, 400)
+    for j, (fn, src, _) in enumerate(pinned_programs()):
+        jobs.append((100000 + j, "pinned", "pinned:" + fn, src, root))
     try:        # warm a typeshed cache for the generated programs (real typeshed, not the fixtures)
         X.compile_to_ir({"native.py": G.HEADER}, ["native"], os.path.join(root, "warm"), fixtures=False, want_pre=False,
                         cache_dir=os.path.join(root, "cache0"))
     except X.CompileFailure as e:
         raise ToolFailure("the fixed header of the generated programs does not compile: " + str(e))
-    for j in range(nprog):
-        src, names, constructs = G.gen_program(rng, rng.randint(3, 5))
+    for j, (src, names, constructs) in enumerate(gen_progs):
         for cn in constructs:
             ctx.dist("generated_construct", cn)
         jobs.append((len(cases) + j, "gen", f"generated:{ctx.seed}:{j}", src, root))
@@ -369,8 +496,15 @@ def main(ctx: Ctx) -> None:
                 "Lean interpreter for running the verified checker on the exported IR (kernel-evaluated only on Gen/C06Sample)",
                 "dynamic claims (no crash of the interpreter, no leak at run time) are searched, not proved")
 
-    # 2. tie: export + verify
-    results = export_all(ctx)
+    # 2. tie: export + verify.  The real builds needed later (witness module of the known findings, the generated
+    #    programs of the dynamic stream) are started now and run beside the export.
+    rng = ctx.rng
+    gen_progs = [G.gen_program(rng, rng.randint(3, 5)) for _ in range(ctx.pick(24, 400))]
+    known_build = Build(ctx, "known", {"native.py": KNOWN_MODULE}, ["native"])
+    ndyn = ctx.pick(3, 8)
+    dyn_builds = {f"generated:{ctx.seed}:{j}": Build(ctx, f"gen{j}", {"native.py": gen_progs[j][0], "interp.py": gen_progs[j][0]}, ["native"])
+                  for j in range(min(ndyn, len(gen_progs)))}
+    results = export_all(ctx, gen_progs)
     lap("export_ir")
     funcs: list[tuple[dict, dict]] = []
     for r in results:
@@ -439,6 +573,8 @@ def main(ctx: Ctx) -> None:
     ctx.count("disagreements_checked", len(rejected))
     n_unknown_reported = 0
     dyn_cache: dict[str, dict] = {}
+    reported_programs: set[str] = set()
+    pinned_drivers = {"pinned:" + fn: drv for fn, _, drv in pinned_programs()}
     for key, members in sorted(groups.items(), key=lambda kv: -len(kv[1])):
         obs = json.loads(key)
         members.sort(key=lambda rf: (rf[0]["kind"] != "gen", rf[0]["kind"] != "pinned", rf[0]["kind"] != "run", rf[1]["nops"]))
@@ -450,20 +586,21 @@ def main(ctx: Ctx) -> None:
         what = (f"checkFunc rejects {f['name']} ({r['key']}): {f['bad'].get('micro_op')} with value {f['bad'].get('value')} "
                 f"at block {f['bad']['where'][0]} ({f['bad'].get('ir_op')} {f['bad'].get('ir_function') or ''}); "
                 f"{len(members)} function(s) in this class")
-        if obs["class"] in KNOWN_RECIPES:
-            dyn = run_known_recipe(ctx, obs["class"])
+        if obs["class"] in KNOWN_DRIVERS:
+            dyn = run_known_recipe(known_build, obs["class"])
             detail["dynamic"] = dyn
-            obs2 = dict(obs, dynamic="SIGSEGV" if dyn["signal"] == 11 else
-                        ("witness-build-failed" if dyn.get("build_failed") else f"exit {dyn['exit_code']}"))
-            ctx.report(obs2, what + f"; witness program ends with {obs2['dynamic']}", detail)
+            obs2 = dict(obs, dynamic=dyn["result"])
+            ctx.report(obs2, what + f"; witness program: {dyn['result']}", detail)
             continue
-        if n_unknown_reported >= 3:
+        if n_unknown_reported >= 4:
             continue
         n_unknown_reported += 1
         found = None
         cands, seen_prog = [], set()
         for rr, ff in members:
-            if rr["key"] not in seen_prog and rr["kind"] in ("gen", "run"):
+            if rr["key"] in seen_prog:
+                continue
+            if rr["kind"] in ("gen", "run") or (rr["kind"] == "pinned" and pinned_drivers.get(rr["key"])):
                 seen_prog.add(rr["key"])
                 cands.append((rr, ff))
             if len(cands) >= 2:
@@ -475,7 +612,9 @@ def main(ctx: Ctx) -> None:
             elif rr["kind"] == "gen":
                 # the driver calls every generated entry point f<i>; helpers are reached through them
                 entry = [g["short"] for g in rr["funcs"] if g["short"] and g["short"][0] == "f" and g["short"][1:].isdigit()]
-                dyn = dynamic_generated(ctx, tag, ff["source"], entry, reps=ctx.pick(30, 300))
+                dyn = dynamic_generated(ctx, tag, ff["source"], entry, reps=ctx.pick(30, 300), build=dyn_builds.get(rr["key"]))
+            elif rr["kind"] == "pinned":
+                dyn = dynamic_pinned(ctx, tag, ff["source"], pinned_drivers[rr["key"]])
             else:
                 dyn = dynamic_corpus(ctx, tag, ff["source"], ff.get("files", {}))
             dyn_cache[rr["key"]] = dyn
@@ -486,31 +625,51 @@ def main(ctx: Ctx) -> None:
         if found:
             rr, ff, dyn = found
             fail = dyn["failures"][0]
-            detail.update({"program": rr["key"], "function": ff["name"], "source": ff["source"], "dynamic": dyn})
+            reported_programs.add(rr["key"])
+            detail.update({"program": rr["key"], "function": ff["name"], "source": ff["source"], "dynamic": dyn,
+                           "program_kind": rr["kind"], "ir": ff["pretty"], "failure": ff["bad"], "witness": ff.get("witness")})
             ctx.report(dict(obs, dynamic=fail["class"]),
                        what + f"; compiled for real: {fail['class']} {json.dumps({k: v for k, v in fail.items() if k != 'class'})[:200]}",
                        detail)
+        elif f["lean_replay"] == "replay-ok":
+            # the failing input is the function's final IR together with a path of the ownership semantics on which
+            # it gets stuck (re-checked by the Lean driver's replayFrom); no run-time misbehaviour was provoked
+            ctx.report(dict(obs, dynamic="not-reproduced"),
+                       what + f"; failing input = final IR + path through blocks {(f.get('witness') or {}).get('labels')} "
+                       "(replayed in the Lean semantics); the compiled module did not misbehave on the inputs tried", detail)
         else:
-            ctx.violation(what + "; the compiled module did not misbehave on the inputs tried",
+            ctx.violation(what + "; no concrete path found and the compiled module did not misbehave on the inputs tried",
                           dict(detail, broken="checkFunc (Driver/C06) on the regenerated final IR", observed=obs), found_input=False)
 
+    # known finding that only shows at run time (C runtime, outside the IR): checked on every run
+    dyn = run_known_recipe(known_build, "stealing-primitive-leaks-on-error")
+    ctx.dist("known_dynamic_recipe", "stealing-primitive-leaks-on-error: " + dyn["result"])
+    if dyn["result"] == "leak":
+        ctx.report({"class": "stealing-primitive-leaks-on-error", "primitive": "CPyList_SetItem", "dynamic": "leak"},
+                   "`lst[i] = v` with an index out of range keeps one reference to v per failure (" + dyn["output"].strip()[-40:] + ")",
+                   {"dynamic": dyn, "program_kind": "known-dynamic"})
     lap("rejections_and_search")
-    # 4. thorough: pure search on generated programs (dynamic part of the property)
-    if not ctx.quick():
-        import random
-        rng2 = random.Random(f"C06-dyn:{ctx.seed}")
-        progs = [G.gen_program(rng2, 4) for _ in range(6)]
-        with ThreadPoolExecutor(max_workers=3) as ex:
-            dyn_res = list(ex.map(lambda a: dynamic_generated(ctx, f"search{a[0]}", a[1][0], a[1][1], 40), enumerate(progs)))
-        for (src, names, _), dyn in zip(progs, dyn_res):
-            ctx.dist("dynamic_search", "built" if dyn.get("built") else "build-failed")
-            ctx.count("dynamic_calls", dyn.get("calls", 0))
-            for fail in dyn.get("failures", []):
-                ctx.report({"class": "dynamic-" + fail["class"]},
-                           f"generated program misbehaves when compiled: {json.dumps(fail)[:300]}",
-                           {"source": src, "failure": fail, "program_kind": "gen-dynamic", "functions": names, "dynamic": dyn})
-                break
-        lap("dynamic_search")
+    # 4. dynamic stream: generated programs compiled for real (started before the export), run on tracked objects
+    #    under the debug allocator, compared with the interpreter on unassigned-local / attribute errors
+    def _dyn(item: tuple[str, Build]) -> tuple[str, dict]:
+        key, b = item
+        if key in dyn_cache:
+            return key, dyn_cache[key]
+        j = int(key.rsplit(":", 1)[1])
+        return key, dynamic_generated(ctx, "gen%d" % j, gen_progs[j][0], gen_progs[j][1], ctx.pick(20, 60), build=b)
+    with ThreadPoolExecutor(max_workers=3) as ex:
+        dyn_res = list(ex.map(_dyn, dyn_builds.items()))
+    for key, dyn in dyn_res:
+        ctx.dist("dynamic_stream", "built" if dyn.get("built") else "build-failed")
+        ctx.count("dynamic_calls", dyn.get("calls", 0))
+        j = int(key.rsplit(":", 1)[1])
+        if dyn.get("failures") and key not in reported_programs:
+            fail = dyn["failures"][0]
+            ctx.report({"class": "dynamic-" + fail["class"]},
+                       f"generated program {key} misbehaves when compiled: {json.dumps(fail)[:300]}",
+                       {"source": gen_progs[j][0], "failure": fail, "program_kind": "gen-dynamic", "functions": gen_progs[j][1],
+                        "dynamic": dyn})
+    lap("dynamic_stream")
 
     if not proved and not ctx.violations:
         ctx.violation("Lean development for C06 no longer builds (Props/C06 over the regenerated Gen/C06Sample)",
@@ -562,7 +721,7 @@ def replay(ctx: Ctx, path: str) -> int:
                       ctx.lean_driver("Driver/C06.lean", [M.line_replay(m, w)])[0])
     dyn = det.get("dynamic")
     if isinstance(dyn, dict) and "driver" in dyn:
-        d, log = real_build(ctx, "replay-dyn", {"native.py": dyn["program"]}, ["native"])
+        d, log = real_build(ctx, "replay-dyn", {"native.py": dyn.get("program", src)}, ["native"])
         if d:
             code, out = run_py(d, dyn["driver"], [])
             print("dynamic witness exit code:", code, out[-200:])
